@@ -162,6 +162,15 @@ def replay(scn):
                     kw = {}
                     if i["insert"]:
                         kw["insert"] = i["insert"][0]
+                    if kname == "i":
+                        # a sibling array first: same dimension names, sizes and end labels, other labels inside - nothing that is
+                        # computed for it (grouped labels are built lazily) may be reused for this one
+                        b = a.copy()
+                        for bx in b.axes:
+                            if bx.size >= 3:
+                                bx[1] = bx.values[1] + 1 if (bx.values[1] + 1) not in bx.values.tolist() else bx.values[1] - 1
+                        gb = b.flatten(_dims_arg(i, b, i["form"], byname), **kw)
+                        [ax.values for ax in gb.axes]
                     res = a.flatten(_dims_arg(i, a, i["form"], byname), **kw)
                 else:
                     names = [",".join(g) for g in i["groups"]]
